@@ -473,6 +473,30 @@ def p_np_minimum_of_constants(x):
     return x * np.minimum(1.5, 0.25)
 
 
+# a closure variable named like a module-level constant: Python reads the closure, not the module
+CLOSURE_SCALE = 5.0
+
+
+def _make_closure_rate(CLOSURE_SCALE):  # noqa: N803
+    def p_closure_shadows_module_constant(x, k):
+        return CLOSURE_SCALE * k * x
+
+    return p_closure_shadows_module_constant
+
+
+p_closure_shadows_module_constant = _make_closure_rate(2.0)
+
+
+def _make_closure_rate_plain(factor):
+    def p_closure_variable(x, k):
+        return factor * k * x
+
+    return p_closure_variable
+
+
+p_closure_variable = _make_closure_rate_plain(0.75)
+
+
 PROGRAMS = [v for k, v in sorted(globals().items()) if k.startswith("p_") and callable(v)]
 # constructs with an open finding on the pinned tree: kept out of composites, probed individually
 FINDING_PROBES = {"p_if_assign_branch", "p_if_else_assign_then_return", "p_return_in_else_only"}
